@@ -178,7 +178,7 @@ func checkC03(c *runCtx) {
 		"the scripted peer always authenticates correctly (unauthenticated traffic is C02's subject); it may send checks and USE-CANDIDATE on any pair at any time, answer from another known address, or deliver an answer at another local socket")
 	p := newVTPool()
 	defer p.close()
-	dl := c01deadline(c, 150, 1500)
+	dl := c01deadline(c, 240, 1500)
 	depth := 5
 	if !c.quick() {
 		depth = 7
